@@ -122,6 +122,8 @@ def check(ctx):
                           "acmed::DEFAULT_POOL_NB_TRIES", fn)
     # no other loop in the workspace re-issues requests: callers of http::post* that sit in a loop
     for b in prog.user_bodies(("acmed",)):
+        if prog.absorbed(b.key):
+            continue        # a new helper inlined into its callers: its loop was examined there (bounded_loop_rule on pool_*)
         for c in b.calls_to("acmed::http::post", "acmed::http::post_jose", "acmed::http::get"):
             if b.key.startswith(("acmed::acme_proto::http::pool_", POST, GET)):
                 continue
